@@ -130,6 +130,10 @@ func cmdCheck(args []string) {
 
 	// closure of units
 	todo := p.unitsFor(ps.Roots)
+	isRoot := map[string]bool{}
+	for _, u := range todo {
+		isRoot[u.Name] = true
+	}
 	seen := map[string]bool{}
 	var results []*UnitResult
 	var assumedUnits []string
@@ -168,9 +172,14 @@ func cmdCheck(args []string) {
 				todo = append(todo, cu)
 			}
 		}
-		for _, lit := range u.Lits {
-			if !seen[lit.Name] && lit.HasSpec {
-				todo = append(todo, lit)
+		// function literals: the closures of a root unit belong to the property; closures of functions that are only
+		// reached as callees (e.g. the backward rules behind a forward operation) belong to the properties that name them
+		if isRoot[u.Name] {
+			for _, lit := range u.Lits {
+				if !seen[lit.Name] && lit.HasSpec {
+					isRoot[lit.Name] = true
+					todo = append(todo, lit)
+				}
 			}
 		}
 		lemmaNames := append([]string(nil), u.Uses...)
@@ -432,7 +441,7 @@ func runRac(vd, repo, prop string, b RacRef, tier string, seed int, known []Know
 			rp := filepath.Join(vd, "out", "replay", prop+"_"+sanitize(name)+".json")
 			rb, _ := json.MarshalIndent(rec, "", " ")
 			os.WriteFile(rp, rb, 0o644)
-			if len(rep.violations) < 5 {
+			if len(rep.violations) < 8 {
 				rep.violations = append(rep.violations, fmt.Sprintf("VIOLATION property=%s replay=%s", prop, rp))
 			}
 		}
